@@ -31,6 +31,8 @@ type Report struct {
 	Errors      []string      `json:"errors"`
 	Notes       []string      `json:"notes"`
 	LockSites   []LockSite    `json:"lock_sites"`
+	AccessLines []string      `json:"access_lines"` // file:line of every guarded-field access (for attributing race reports)
+	Counts      map[string]int `json:"counts"`
 }
 
 type EntryReport struct {
@@ -40,6 +42,9 @@ type EntryReport struct {
 	IR      string `json:"ir"`
 	Trivial bool   `json:"trivial"`
 	Store   bool   `json:"store_method"`
+	Reads   []string `json:"reads"`  // field labels read
+	Writes  []string `json:"writes"` // field labels written
+	Locks   []string `json:"locks"`  // mutex labels acquired
 }
 
 // LockSite is one Lock/Unlock/RLock/RUnlock line (the mutation self-check removes them one at a time)
@@ -106,6 +111,9 @@ func translate(repo string, overlay map[string]string, mem map[string][]byte) (*
 	}
 	rep := &Report{Repo: repo, Functions: len(t.order), Errors: t.errs, Notes: t.notes}
 	guard, rank := guardMap()
+	rep.Counts = map[string]int{}
+	lines := map[string]bool{}
+	defer func() { rep.AccessLines = keys(lines) }()
 	sort.SliceStable(t.entries, func(i, j int) bool { return t.entries[i].Name < t.entries[j].Name })
 	for _, fi := range t.order {
 		if fi.isHelper() {
@@ -113,8 +121,41 @@ func translate(repo string, overlay map[string]string, mem map[string][]byte) (*
 		}
 	}
 	for _, e := range t.entries {
-		rep.Entries = append(rep.Entries, EntryReport{Name: e.Name, Kind: e.Kind, Pos: fmt.Sprintf("%s:%d", e.Pos.Filename, e.Pos.Line),
-			IR: e.Body.Short(), Trivial: e.Body.trivial(), Store: e.Store})
+		er := EntryReport{Name: e.Name, Kind: e.Kind, Pos: fmt.Sprintf("%s:%d", e.Pos.Filename, e.Pos.Line),
+			IR: e.Body.Short(), Trivial: e.Body.trivial(), Store: e.Store}
+		rs, ws, ls := map[string]bool{}, map[string]bool{}, map[string]bool{}
+		e.Body.walk(func(x *Stmt) {
+			switch x.K {
+			case KRd:
+				rs[x.Label] = true
+				rep.Counts["rd"]++
+			case KWr:
+				ws[x.Label] = true
+				rep.Counts["wr"]++
+			case KAcq:
+				ls[x.Label] = true
+				if x.Ex {
+					rep.Counts["acq_ex"]++
+				} else {
+					rep.Counts["acq_sh"]++
+				}
+			case KRel:
+				rep.Counts["rel"]++
+			case KBlock:
+				rep.Counts["block"]++
+			case KLoop:
+				rep.Counts["loop"]++
+			case KChoice:
+				rep.Counts["choice"]++
+			case KReturn:
+				rep.Counts["return"]++
+			}
+			if (x.K == KRd || x.K == KWr) && x.Pos.IsValid() {
+				lines[fmt.Sprintf("%s:%d", x.Pos.Filename, x.Pos.Line)] = true
+			}
+		})
+		er.Reads, er.Writes, er.Locks = keys(rs), keys(ws), keys(ls)
+		rep.Entries = append(rep.Entries, er)
 		rep.Diagnostics = append(rep.Diagnostics, diagnose(e.Name, e.Body, guard, rank)...)
 		if e.Store {
 			if why := singleSection(e.Body, guard); why != "" {
@@ -202,6 +243,15 @@ func main() {
 	for _, d := range rep.Diagnostics {
 		fmt.Printf("  [%s] %s: %s %s %s (%s)\n", d.Check, d.Func, d.Kind, d.Field, d.Lock, d.Pos)
 	}
+}
+
+func keys(m map[string]bool) []string {
+	out := []string{}
+	for k := range m {
+		out = append(out, k)
+	}
+	sort.Strings(out)
+	return out
 }
 
 func coqIdent(s string) string {
